@@ -333,10 +333,16 @@ def generate(ex: Executor, c: FnContract, mod, fnode):
                 goal = z3.Or(alts_ok) if alts_ok else z3.BoolVal(False)
                 ex.add_vc("raises", "", o.st.pc, goal,
                           note=f"exception escaping: site={exc.attrs.get('site', '')}", loc=ex.loc(fnode))
+                for (label, e) in c.exc_ensures:
+                    cx.note = ""
+                    ex.add_vc("exc-ensures", label, o.st.pc, ex._b(e(cx)), note=cx.note or f"exceptional outcome: site={exc.attrs.get('site', '')}",
+                              loc=ex.loc(fnode))
             else:
                 raise Unsupported(f"{o.kind} escaping function body")
         if n_raise == 0:
             ex.add_vc("raises", "", [], z3.BoolVal(True), note="no escaping exceptional path", loc=ex.loc(fnode))
+            for (label, _e) in c.exc_ensures:
+                ex.add_vc("exc-ensures", label, [], z3.BoolVal(True), note="no escaping exceptional path", loc=ex.loc(fnode))
         covers.append({"paths_return": n_ret, "paths_raise": n_raise})
         first = False
     if c.returns is not None and "returns" not in "".join(ex.obls):
